@@ -138,6 +138,21 @@ pub fn cap_run(case: &Case, deadline: bool, sched: Sched) -> Result<CapOut, Stri
     let alg = seq.alg.to();
     let mut text_ratio = None;
     let (raw, old_ids, new_ids, or, nr) = match case.entry {
+        CapEntry::Ranges if case.flavour == 3 && seq.index == crate::gen::IndexKind::Slice => {
+            // different item types on the two sides, hashed differently (the
+            // bounds only ask for equality across the sides)
+            let o: Vec<u64> = seq.old.iter().map(|x| *x as u64).collect();
+            let n: Vec<crate::props::c20::Other> =
+                seq.new.iter().map(|x| crate::props::c20::Other(*x as u64)).collect();
+            let ops = guarded(|| {
+                if deadline {
+                    capture_diff_deadline(alg, &o[..], seq.or(), &n[..], seq.nr(), dl)
+                } else {
+                    capture_diff(alg, &o[..], seq.or(), &n[..], seq.nr())
+                }
+            })?;
+            (ops, seq.old.clone(), seq.new.clone(), seq.or(), seq.nr())
+        }
         CapEntry::Ranges => {
             let oldc = counted(&seq.old);
             let newc = counted(&seq.new);
